@@ -1,4 +1,5 @@
 """C11 — UDP frame fragmentation/reassembly exact under reordering and duplication."""
+import harness
 from specs import fragment
 
 
